@@ -235,12 +235,16 @@ theorem C13_names_are_paths_of_full_references {sv : Server} {ns : Name} {x : Pa
       have hh := hSok.nohost a haS
       simp [setHost, fillHost, hh]
 
-/-- **names_are_paths_of_full**, Associators / AssociatorNames (instance level): whenever Associators
+/- Full statement (false on the code, see the two negation witnesses below):
+     `(Associators …).map (List.map (·.path)) = AssociatorNames …`
+   It fails (a) by the host: Associators leaves `host = None` (C13-KF4) and (b) for ends that cannot be
+   fetched (C13-KF1..KF3).  Proved instead: -/
+/-- **names_are_paths_of_full** (`_partial`), Associators / AssociatorNames (instance level): whenever Associators
     succeeds, AssociatorNames succeeds and returns, position by position, the paths of the returned
     instances up to the host (Associators leaves `host` empty where AssociatorNames fills in the
     server's: finding C13-KF4) and up to lexical case.  When AssociatorNames fails, Associators fails
     with the same error. -/
-theorem C13_names_are_paths_of_full_associators {sv : Server} {ns : Name} {x : Path} {f : AFilter}
+theorem C13_names_are_paths_of_full_associators_partial {sv : Server} {ns : Name} {x : Path} {f : AFilter}
     (hok : ∀ S ∈ sv.repo, StoreOk S.insts) :
     (∀ is, associatorsI sv ns x f = .ok is →
       ∃ l, associatorNamesI sv ns x f = .ok l ∧ l.length = is.length ∧
@@ -708,6 +712,17 @@ theorem C13_names_are_paths_of_full_associators_fails_at_dangling :
   have : associatorsI svDangling nsA (pa 1) {} = .error errNotFound := by decide
   rw [this] at his
   cases his
+
+/-- **negation witness** for the exact form of names_are_paths_of_full (finding C13-KF4): on a
+    well-formed repository without any dangling end Associators succeeds, but its paths are not the
+    paths AssociatorNames returns (host missing). -/
+theorem C13_names_are_paths_of_full_associators_exact_fails_at_host :
+    ¬ (∀ (sv : Server) (ns : Name) (x : Path) (f : AFilter) (is : List Inst),
+        associatorsI sv ns x f = .ok is → associatorNamesI sv ns x f = .ok (is.map (·.path))) := by
+  intro h
+  have h1 := h svGood nsA (pa 1) {} [node (pa 2), node (pa 3), node (pa 4)] (by decide)
+  revert h1
+  decide
 
 /-- ends stored without namespace / in an unknown namespace (only loadable with add_cimobjects) -/
 def svNoNs : Server := { host := hostH, repo := [
